@@ -26,6 +26,8 @@ class Digits(str):
 
 
 _SERIAL = [0]
+MATCHES = [0]      # successful stub-recogniser matches since the last recogniser_patches() call
+ARMED = [False]
 SKELETON = {"N": "  %d = N 0 0", "S": "  %d = S 2 0", "E": "  %d = E tok", "B": "  %d = B 120000", "TS": "  %d = TS 4", "A": "  %d = A 0",
             "LYR": '  %d = E "lyric tok"', "SEC": '  %d = E "section tok"', "TXT": '  %d = E "tok"', "?": "garbage line %d"}
 
@@ -67,6 +69,7 @@ class StubProg:
 
     def match(self, line):
         if getattr(line, "kind", None) == self.kind:
+            MATCHES[0] += 1
             return StubMatch(line.groups_)
         return None
 
@@ -76,6 +79,8 @@ def recogniser_patches():
     import chartparse.globalevents as G
     import chartparse.instrument as I
     import chartparse.sync as S
+    MATCHES[0] = 0
+    ARMED[0] = True
     table = [("N", I.NoteEvent.ParsedData), ("S", I.StarPowerEvent.ParsedData), ("E", I.TrackEvent.ParsedData),
              ("B", S.BPMEvent.ParsedData), ("TS", S.TimeSignatureEvent.ParsedData), ("A", S.AnchorEvent.ParsedData),
              ("LYR", G.LyricEvent.ParsedData), ("SEC", G.SectionEvent.ParsedData), ("TXT", G.TextEvent.ParsedData)]
@@ -112,3 +117,11 @@ def GE(kind, tick, value):
 
 def GARBAGE(i=0):
     return TokLine("?", (), "garbage line %d" % i)
+
+
+def bypassed():
+    """True when a token-line harness ran although NO line went through a stubbed recogniser: the
+    implementation recognises lines by some other means (its own combined pattern, string methods),
+    which read the decoy text of the token lines instead of their fields - the abstraction S7' does not
+    apply to such code and the harness cannot judge it."""
+    return ARMED[0] and MATCHES[0] == 0
